@@ -30,41 +30,10 @@ def complete (kind : Kind) (s : Setting) : Bool :=
     type and nothing saves it -/
 def gOrigType (kind : Kind) (o : Orig) : Bool := kind = .deployment && o.stype ≠ .expected
 
-/-- `savedMinReadyZero`: `Initialize` by a BatchRelease that does not control the workload yet finds a saved
-    setting with `minReadySeconds = 0` (the value `0` doubles as "unset") on a workload whose field is not `0` -/
-def gSavedZero (br : BR) (wl : Workload) : Bool :=
-  match wl.saved with
-  | .some s => decide (s.minReadySeconds = 0) && decide (wl.minReadySeconds ≠ 0) && !controlled br wl
-  | _ => false
-
-/-- `hpaListFault`: a List of HPAs fails in this call (`findHPA` logs it and reports "no HPA") -/
-def gListFault (f : Fault) : Bool := f.listV2 || f.listV1
-
-/-- `hpaNoApiVersion`: some HPA of the namespace has a `scaleTargetRef` without `apiVersion` -/
-def gNoApiVersion (w : World) : Bool :=
-  w.hpaV2.any (fun h => h.av = .absent) || w.hpaV1.any (fun h => h.av = .absent)
-
-/-- the Deployment `Finalize` would patch and then fail its wait -/
-def waitFailsAfterPatch (wl : Workload) : Bool :=
-  match getSetting wl.saved with
-  | none => false
-  | some s =>
-    match waitAllUpdatedAndReady (finalizePatch .deployment s wl) with
-    | .val false => true
-    | _ => false
-
-/-- `deployFinalizeRetry`: Deployment `Finalize` on an object that is already restored (no saved annotation: a
-    second attempt, or a workload that was never initialised) skips the patch and evaluates its wait on an
-    empty object -/
+/-- `deployFinalizeRetry` (what is left of it after the two-phase repair): Deployment `Finalize` on an object without
+    saved annotation (a workload that was never initialised, or one that is already completely finalised) skips the
+    patch — the Deployment stays paused — and evaluates its wait on an empty object -/
 def gRestoredDeploy (kind : Kind) (wl : Workload) : Bool := kind = .deployment && restored wl
-
-/-- `deployFinalizeRetry`, seen from two consecutive attempts: the Deployment `Finalize` patches, its wait fails, and
-    the next attempt will find the object restored -/
-def gFinalizeWaitFails (kind : Kind) (op : Op) (w : World) (br : BR) : Bool :=
-  kind = .deployment && op = .fin && !br.partitioned &&
-  (match w.wl with
-   | some wl => !restored wl && waitFailsAfterPatch wl
-   | none => false)
 
 /-- `csPartitionKept`: CloneSet `Finalize` never touches `updateStrategy.partition` -/
 def gCsPartition (kind : Kind) (wl : Workload) : Bool := kind = .cloneSet && wl.partition.isSome
@@ -133,6 +102,17 @@ def finalizeReleases (kind : Kind) (w : World) (br : BR) (out : CallOut) : Bool 
     | none => false
   else true
 
+/-- **C05** the restoring patch of the Deployment `Finalize` hands the Deployment back: whenever the call changes a
+    Deployment that carries a saved annotation, the result is un-paused, without stable-revision label and without
+    control-info (whether or not the call then has to wait). -/
+def finalizePatchReleases (kind : Kind) (w : World) (out : CallOut) : Bool :=
+  match w.wl, out.world.wl with
+  | some wl, some wl' =>
+    if kind = .deployment ∧ restored wl = false ∧ wl' ≠ wl then
+      !wl'.paused && !wl'.stableLabel && decide (wl'.ctl = .none)
+    else true
+  | _, _ => true
+
 /-- **C05** inductive step: every call, whatever its faults, preserves the invariant. -/
 def invPreserved (kind : Kind) (o : Orig) (w : World) (out : CallOut) : Bool :=
   if inv kind o w then inv kind o out.world else true
@@ -149,7 +129,9 @@ def initSavesOriginal (kind : Kind) (w : World) (br : BR) (out : CallOut) : Bool
 
 /-! ### C06: saved settings survive, attempts converge -/
 
-/-- **C06** `InitOriginalSetting` never overwrites what an earlier `Initialize` saved. -/
+/-- **C06** `InitOriginalSetting` never overwrites what an earlier `Initialize` saved (an annotation that holds neither
+    `maxSurge` nor `maxUnavailable` — `Initialize` always writes both — counts as "nothing saved": its `minReadySeconds`
+    of `0` may be filled in). -/
 def initKeepsSaved (w : World) (out : CallOut) : Bool :=
   match w.wl, out.world.wl with
   | some wl, some wl' =>
@@ -160,7 +142,7 @@ def initKeepsSaved (w : World) (out : CallOut) : Bool :=
          (s.maxSurge.isNone || decide (s'.maxSurge = s.maxSurge)) &&
          (s.maxUnavailable.isNone || decide (s'.maxUnavailable = s.maxUnavailable)) &&
          (s.progressDeadlineSeconds.isNone || decide (s'.progressDeadlineSeconds = s.progressDeadlineSeconds)) &&
-         decide (s'.minReadySeconds = s.minReadySeconds)
+         (decide (s'.minReadySeconds = s.minReadySeconds) || (nothingSaved s && decide (s.minReadySeconds = 0)))
        | _ => false)
     | _ => true
   | _, _ => true
@@ -173,6 +155,17 @@ def readyNow (kind : Kind) (wl : Workload) : Bool :=
      | .val b => b
      | .panic => false)
   | .cloneSet => decide (wl.status.ready = wl.status.updatedReady)
+
+/-- **C05** the retry completes: an undisturbed `Finalize` (batchPartition cleared) from a world that satisfies the
+    invariant, on a workload whose pods are all updated and ready with respect to the original settings, reports
+    success. -/
+def finalizeCompletes (kind : Kind) (o : Orig) (w : World) (br : BR) (f : Fault) (out : CallOut) : Bool :=
+  match w.wl with
+  | some wl =>
+    if inv kind o w ∧ f = noFault ∧ br.partitioned = false ∧ wl.replicas.isSome ∧
+       readyNow kind (finalizePatch kind o.setting wl) then decide (out.res = .ok)
+    else true
+  | none => true
 
 /-- **C06 / C11** a `Finalize` that reports success has seen every pod updated and ready — on every attempt. -/
 def finalizeDoneMeansReady (kind : Kind) (w : World) (br : BR) (out : CallOut) : Bool :=
@@ -348,18 +341,6 @@ def run (kind : Kind) (w : World) : List Ev → Option World
     | none => none
 
 
-/-- no `Initialize` of the history falls into the known finding `savedMinReadyZero` -/
-def guardFree (kind : Kind) (w : World) : List Ev → Bool
-  | [] => true
-  | e :: t =>
-    (match e, w.wl with
-     | .call .init br _, some wl => !gSavedZero br wl
-     | _, _ => true) &&
-    (match applyEv kind w e with
-     | some w' => guardFree kind w' t
-     | none => true)
-
-
 /-- the ghost of a release that starts on workload `wl` -/
 def origOf (kind : Kind) (wl : Workload) : Orig := { setting := effSetting kind wl, stype := wl.stype }
 
@@ -401,21 +382,17 @@ def progressRun (kind : Kind) (B : Int) (w : World) : List Ev → Bool
 
 /-! ### what the driver evaluates -/
 
-def guardTags (kind : Kind) (op : Op) (w : World) (br : BR) (f : Fault) (o : Option Orig) : List String :=
+def guardTags (kind : Kind) (op : Op) (w : World) (br : BR) (o : Option Orig) : List String :=
   (match w.wl with
    | some wl =>
-     (if op = .fin && !br.partitioned && (gRestoredDeploy kind wl || (kind = .deployment && waitFailsAfterPatch wl))
-        then ["guard:deployFinalizeRetry"] else []) ++
-     (if op = .fin && !br.partitioned && gCsPartition kind wl then ["guard:csPartitionKept"] else []) ++
-     (if op = .init && gSavedZero br wl then ["guard:savedMinReadyZero"] else [])
+     (if op = .fin && !br.partitioned && !wl.deleting && gRestoredDeploy kind wl then ["guard:deployFinalizeRetry"] else []) ++
+     (if op = .fin && !br.partitioned && gCsPartition kind wl then ["guard:csPartitionKept"] else [])
    | none => []) ++
-  (if op ≠ .upgrade && gNoApiVersion w then ["guard:hpaNoApiVersion"] else []) ++
-  (if op ≠ .upgrade && gListFault f then ["guard:hpaListFault"] else []) ++
   (match o with
    | some o => if gOrigType kind o then ["guard:origRecreate"] else []
    | none => [])
 
-def stepOracles (kind : Kind) (op : Op) (w : World) (br : BR) (o : Option Orig) (out : CallOut) :
+def stepOracles (kind : Kind) (op : Op) (w : World) (br : BR) (f : Fault) (o : Option Orig) (out : CallOut) :
     List (String × Bool) :=
   [("C06.bg_no_write_no_change", noWriteNoChange w out)] ++
   (match o with
@@ -423,7 +400,8 @@ def stepOracles (kind : Kind) (op : Op) (w : World) (br : BR) (o : Option Orig) 
      [("C05.bg_inv_preserved", invPreserved kind o w out)] ++
      (if op = .fin then
         [("C05.bg_finalize_restores_original", finalizeRestores kind o w br out),
-         ("C05.bg_finalize_restores_type", finalizeRestoresType kind o w br out)]
+         ("C05.bg_finalize_restores_type", finalizeRestoresType kind o w br out),
+         ("C05.bg_finalize_completes", finalizeCompletes kind o w br f out)]
       else [])
    | none => []) ++
   (match op with
@@ -440,6 +418,7 @@ def stepOracles (kind : Kind) (op : Op) (w : World) (br : BR) (o : Option Orig) 
    | .fin =>
      [("C05.bg_finalize_restores_hpa", finalizeRestoresHPA w br out),
       ("C05.bg_finalize_releases_workload", finalizeReleases kind w br out),
+      ("C05.bg_finalize_patch_releases", finalizePatchReleases kind w out),
       ("C06.bg_finalize_done_means_ready", finalizeDoneMeansReady kind w br out),
       ("C11.bg_finalize_done_means_ready", finalizeDoneMeansReady kind w br out)])
 
